@@ -7,6 +7,7 @@ pub mod mapcodec;
 pub mod mapgen;
 pub mod dummydiffcodec;
 pub mod diffcodec;
+pub mod diffgen;
 pub mod rawval;
 pub mod rawcodec_gen;
 pub mod jvmsframe;
